@@ -41,6 +41,7 @@ _ID_POOLS = (
     ("utt10", "utt1", "utt", "spk-utt10", "ab", "a"),
     ("a", "ab", "utt", "utt1", "utt10-x", "x-utt"),
     ("utt0", "utt1-", "utt2-a", "utt3", "utt4-", "utt5"),
+    ("rec1.seg1", "rec1.seg2", "spk.a.001", "rec1", "x.pt", "spk.a"),
 )
 
 
@@ -60,6 +61,8 @@ def _setup(case, td):
             np.save(p, (rng.standard_normal(n) * 100).astype(np.float32))
             utt = _utt_id(case, i)
             ids.append(utt)
+            if case.get("blank_lines") and i in (1, 3):
+                f.write("\n" if i == 1 else "   \n")  # the map parser skips empty / whitespace-only lines
             f.write("%s %s\n" % (utt, p))
     return mp, ids
 
@@ -244,7 +247,8 @@ def _base():
     return dict(
         lens=st.lists(st.sampled_from([40, 25, 9, 3, 64, 17]), min_size=1, max_size=5),
         seed=st.one_of(st.just(0), st.integers(0, 10 ** 6), st.integers(1, 10 ** 6)),
-        ids=st.integers(0, 2),
+        blank_lines=st.booleans(),
+        ids=st.integers(0, 3),
         dither=st.sampled_from([1.0, 1.0, 5.0]),
         comp=st.sampled_from([True, True, False]),
     )
@@ -297,7 +301,7 @@ def _grid(tier):
                     for w in ((0, 2) if tier == "thorough" else ((0, 2) if (kind == "hard" and phase in ("before_save", "after_save") and k >= 1) else (0,))):
                         if w and phase == "in_compute":
                             continue
-                        yield {"lens": lens_all[:n], "seed": (11 + n) * (k % 2), "ids": n + k, "dither": 1.0, "comp": True,
+                        yield {"lens": lens_all[:n], "seed": (11 + n) * (k % 2), "ids": n + k, "blank_lines": bool((n + k) % 2), "dither": 1.0, "comp": True,
                                "crash": {"k": k, "phase": phase, "kind": kind}, "workers": w, "delays": [7, 0, 3] if w else None}
 
 
